@@ -5,9 +5,9 @@
    DetectGenProofsMw.v etc.  The instance is the one the correspondence runs
    (constants of gen/Consts_gen.v, Unicode facts of gen/Unicode_gen.v). *)
 From Coq Require Import List ZArith NArith Bool Lia.
-From Pcfg Require Import Str Multiword Detect Segment SegCorr DetectRt DetectRt2 DetectProofsStr DetectProofsMw
-     DetectProofsInst DetectGenProofs DetectGenProofsMw.
-From PcfgGen Require Import Consts_gen Unicode_gen DetectMw_gen.
+From Pcfg Require Import Str Multiword Detect Segment SegCorr DetectRt DetectRt2 DetectProofsStr DetectProofsDrive DetectProofsMw
+     DetectProofsSeg DetectProofsWeb DetectProofsInst DetectGenProofs DetectGenProofsMw DetectGenProofsEmail DetectGenProofsWeb.
+From PcfgGen Require Import Consts_gen Unicode_gen DetectMw_gen DetectEmail_gen DetectWeb_gen.
 Import ListNotations.
 Open Scope Z_scope.
 
@@ -97,3 +97,75 @@ Lemma demo_py_mw :
     py_mwparse_c t [112; 97; 115; 115; 119; 111; 114; 100]%N = Some (true, [[112; 97; 115; 115]; [119; 111; 114; 100]]%N) /\
     py_mwparse_c t [112; 97; 115; 115; 119; 111; 114; 107]%N = Some (false, [[112; 97; 115; 115; 119; 111; 114; 107]]%N).
 Proof. eexists. split; [vm_compute; reflexivity|]. repeat split; vm_compute; reflexivity. Qed.
+
+(* ------------------------------------------------------------------ *)
+(* the e-mail and website detectors                                    *)
+(* ------------------------------------------------------------------ *)
+
+(* one call of the translated detector on an unlabelled section, read as
+   email_detection / website_detection read it (`if email:` / `if url:`) *)
+Definition py_detect_email_c (s : str) : dres (str * str) :=
+  dres_email (py_detect_email c_lower tld_list (s, None)).
+Definition py_detect_website_c (s : str) : dres (str * str * option str) :=
+  dres_web (py_detect_website c_isalpha c_lower tld_list (s, None)).
+
+Theorem py_detect_email_c_is_model s : py_detect_email_c s = detect_email c_lower true tld_list s.
+Proof. exact (py_detect_email_eq c_lower tld_list (s, None)). Qed.
+Theorem py_detect_website_c_is_model s : py_detect_website_c s = detect_website c_isalpha c_lower true tld_list s.
+Proof. exact (py_detect_website_eq c_isalpha c_lower tld_list (s, None) side_tlds_nonempty). Qed.
+
+Lemma det_split_ok_ext {F} (d1 d2 : str -> dres F) : (forall s, d1 s = d2 s) ->
+  det_split_ok c_isalpha c_isdigit c_lower c_kbs c_min_run year_prefixes context_strings d2 ->
+  det_split_ok c_isalpha c_isdigit c_lower c_kbs c_min_run year_prefixes context_strings d1.
+Proof.
+  intros E (H1 & H2). split.
+  - intros s Hg. rewrite E. now apply H1.
+  - intros s p f Hg Hs D. rewrite E in D. now apply (H2 s p f).
+Qed.
+
+(* email_split_ok / website_split_ok for the translated detectors: no exception on a
+   good section, and what they return splits the section into sound tiles *)
+Theorem py_email_split_ok :
+  det_split_ok c_isalpha c_isdigit c_lower c_kbs c_min_run year_prefixes context_strings py_detect_email_c.
+Proof.
+  apply (det_split_ok_ext _ _ py_detect_email_c_is_model).
+  exact (email_split_ok_proved c_isalpha c_isdigit c_lower c_kbs c_min_run tld_list year_prefixes context_strings).
+Qed.
+Theorem py_website_split_ok :
+  det_split_ok c_isalpha c_isdigit c_lower c_kbs c_min_run year_prefixes context_strings py_detect_website_c.
+Proof.
+  apply (det_split_ok_ext _ _ py_detect_website_c_is_model).
+  exact (website_split_ok_proved c_isalpha c_isdigit c_lower c_kbs c_min_run tld_list year_prefixes context_strings
+           side_tlds_nonempty).
+Qed.
+
+(* the translated loops never raise (in particular their fuel suffices) and return the
+   model's section list and found lists *)
+Theorem py_email_detection_c_is_model sl :
+  py_email_detection c_lower tld_list sl =
+  match drive_all (detect_email c_lower true tld_list) false sl with
+  | None => None
+  | Some (out, fs) => Some (out, map fst fs, map (fun f => Some (snd f)) fs)
+  end.
+Proof. apply py_email_detection_eq. Qed.
+Theorem py_website_detection_c_is_model sl :
+  py_website_detection c_isalpha c_lower tld_list sl =
+  match drive_all (detect_website c_isalpha c_lower true tld_list) false sl with
+  | None => None
+  | Some (out, fs) => Some (out, map (fun f => fst (fst f)) fs, map (fun f => Some (snd (fst f))) fs, map snd fs)
+  end.
+Proof. apply py_website_detection_eq. exact side_tlds_nonempty. Qed.
+
+(* the generated code runs: 'bob@hotmail.com123' and 'xxwww.rockyou.com/abc' *)
+Lemma demo_py_email_web :
+  py_detect_email c_lower tld_list ([98; 111; 98; 64; 104; 111; 116; 109; 97; 105; 108; 46; 99; 111; 109; 49; 50; 51]%N, None) =
+    Some (PList [([98; 111; 98; 64; 104; 111; 116; 109; 97; 105; 108; 46; 99; 111; 109]%N, Some LE); ([49; 50; 51]%N, None)],
+          Some [98; 111; 98; 64; 104; 111; 116; 109; 97; 105; 108; 46; 99; 111; 109]%N,
+          Some [104; 111; 116; 109; 97; 105; 108; 46; 99; 111; 109]%N) /\
+  py_website_detection c_isalpha c_lower tld_list
+    [([120; 120; 119; 119; 119; 46; 114; 111; 99; 107; 121; 111; 117; 46; 99; 111; 109; 47; 97; 98; 99]%N, None)] =
+    Some ([([120; 120]%N, None);
+           ([119; 119; 119; 46; 114; 111; 99; 107; 121; 111; 117; 46; 99; 111; 109; 47; 97; 98; 99]%N, Some LW)],
+          [[119; 119; 119; 46; 114; 111; 99; 107; 121; 111; 117; 46; 99; 111; 109; 47; 97; 98; 99]%N],
+          [Some [114; 111; 99; 107; 121; 111; 117; 46; 99; 111; 109]%N], [Some [119; 119; 119; 46]%N]).
+Proof. split; vm_compute; reflexivity. Qed.
